@@ -8,6 +8,7 @@ import (
 	"path/filepath"
 	"runtime"
 	"sort"
+	"strconv"
 	"strings"
 )
 
@@ -47,6 +48,15 @@ func contractPackages() []string {
 		}
 	}
 	return uniq
+}
+
+// parallelism: number of obligations discharged at once (VERIF_PAR overrides; each runs up to 3 solvers).
+func parallelism(def int) int {
+	if v, err := strconv.Atoi(os.Getenv("VERIF_PAR")); err == nil && v > 0 {
+		return v
+	}
+	_ = runtime.NumCPU
+	return def
 }
 
 func hasProp(props []string, p string) bool {
@@ -116,7 +126,8 @@ func main() {
 				obls = vc.obls
 			}
 			out := filepath.Join(verifDir, "out", envOr("VERIF_OUT", "func"))
-			e.Discharge(obls, out, *timeout, runtime.NumCPU()/2, false)
+			obls = filterObls(obls) // devfilter.go (w-c09): VERIF_OBL=<regexp> restricts `func` to matching obligations
+			e.Discharge(obls, out, *timeout, parallelism(3), false)
 			for _, o := range obls {
 				if o.Kind == "cover" {
 					continue
